@@ -2132,6 +2132,10 @@ bool TypeChecker::checkExpression(expression_t expr)
 
         bool result = true;
         type_t type = expr[0].get_type();
+        if (expr.get_size() != type.size()) {  // already reported by the builder; there is nothing to pair up
+            handleError(expr, "$Wrong_number_of_arguments");
+            return false;
+        }
         size_t parameters = type.size() - 1;
         for (uint32_t i = 0; i < parameters; i++) {
             type_t parameter = type[i + 1];
